@@ -215,9 +215,22 @@ def _validate_case(rep):
 
 
 def _envelope_case(rep):
-    print(json.dumps(rep["case"]))
-    print("re-run ./check C02 to re-evaluate (cases are regenerated deterministically)")
-    return True
+    from harness.props import models
+    if "src" not in rep:
+        print(json.dumps(rep["case"]))
+        print("recorded before the emitter case was stored: re-run ./check C02 to re-evaluate")
+        return True
+    fb = rep["case"]["backend"] == "fallback"
+    out = models.worker(fb, {"op": "emit", "cases": [rep["src"]]})["results"]
+    recs = [r for r in models.emit_recs([rep["src"]], out, fb, {}) if r["form"] == rep["case"]["form"] or not r["built"]]
+    for r in recs:
+        print(json.dumps({k: v for k, v in r.items() if k != "src"}))
+    built = [{k: v for k, v in x.items() if k not in ("built", "pcls", "src")} for x in recs if x["built"]]
+    if not built:
+        return False
+    res = validate.validate("EnvelopeTrace", built, {}, work=os.path.join(tlc.WORK, "replay_env"), jobs=1)
+    print("failed:", res["failed"])
+    return any(rep["clause"] in v for v in res["failed"].values())
 
 
 def _carrier_conv(rep):
